@@ -1653,7 +1653,14 @@ def _mk_stack_base(rng, dtype, layout):
 ATTRS_KINDS = ['res', 'nores', 'empty']
 
 
-def _mk_raster(rng, dtype, layout, backend, kind='data', name='r', attrs_kind='res'):
+def _aux_coords(ydim, xdim):
+    """scalar, 1-D non-index and 2-D auxiliary coordinates every input raster carries"""
+    import numpy as np
+    return {'spatial_ref': 0, 'band': 1, 'time': np.datetime64('2020-01-02'),
+            'row_label': (ydim, np.arange(H) * 10), 'cell_id': ((ydim, xdim), np.arange(H * W).reshape(H, W))}
+
+
+def _mk_raster(rng, dtype, layout, backend, kind='data', name='r', attrs_kind='res', dims_kind='yx'):
     """-> (DataArray, base ndarray that owns the memory).  attrs_kind: 'res' (valid res attribute), 'nores' (attrs
     without res: the cell size must be derived from the coordinates), 'empty' (no attrs at all)"""
     import numpy as np
@@ -1663,6 +1670,7 @@ def _mk_raster(rng, dtype, layout, backend, kind='data', name='r', attrs_kind='r
         del attrs['res']
     elif attrs_kind == 'empty':
         attrs = {}
+    ydim, xdim = ('y', 'x') if dims_kind == 'yx' else ('lat', 'lon')
     if kind == 'stack3':
         base = _mk_stack_base(rng, dtype, layout)
         arr = _view_of(base, layout)
@@ -1672,9 +1680,10 @@ def _mk_raster(rng, dtype, layout, backend, kind='data', name='r', attrs_kind='r
         if backend == 'dask':
             import dask.array as da
             data = da.from_array(arr, chunks=(3, 3, 4))
-        agg = xr.DataArray(data, dims=['layer', 'y', 'x'], name=name,
-                           coords={'layer': np.array([10, 20, 30]), 'y': np.arange(H, dtype='float64')[::-1] * 2.0,
-                                   'x': np.arange(W, dtype='float64') * 2.0, 'spatial_ref': 0}, attrs=attrs)
+        agg = xr.DataArray(data, dims=['layer', ydim, xdim], name=name,
+                           coords=dict(_aux_coords(ydim, xdim), layer=np.array([10, 20, 30]),
+                                       **{ydim: np.arange(H, dtype='float64')[::-1] * 2.0,
+                                          xdim: np.arange(W, dtype='float64') * 2.0}), attrs=attrs)
         return agg, base
     base = _mk_base(rng, dtype, layout, kind)
     arr = _view_of(base, layout)
@@ -1684,9 +1693,9 @@ def _mk_raster(rng, dtype, layout, backend, kind='data', name='r', attrs_kind='r
     if backend == 'dask':
         import dask.array as da
         data = da.from_array(arr, chunks=(3, 4))
-    agg = xr.DataArray(data, dims=['y', 'x'], name=name,
-                       coords={'y': np.arange(H, dtype='float64')[::-1] * 2.0, 'x': np.arange(W, dtype='float64') * 2.0,
-                               'spatial_ref': 0, 'band': 1},
+    agg = xr.DataArray(data, dims=[ydim, xdim], name=name,
+                       coords=dict(_aux_coords(ydim, xdim), **{ydim: np.arange(H, dtype='float64')[::-1] * 2.0,
+                                                               xdim: np.arange(W, dtype='float64') * 2.0}),
                        attrs=attrs)
     return agg, base
 
@@ -1840,6 +1849,8 @@ def _registry():
         'convolution.calc_cellsize': one('convolution', 'calc_cellsize', raster='raster', out='none'),
         'utils.canvas_like': one('utils', 'canvas_like', raster='raster', extra=lambda r, v: {'width': 4}, backends=['numpy'], out='own'),
     }
+    reg['analytics.summarize_terrain'] = one('analytics', 'summarize_terrain', raster='terrain', out='none')
+    reg['utils.get_dataarray_resolution'] = one('utils', 'get_dataarray_resolution', out='none')
     for fn, bands in [('arvi', ['nir_agg', 'red_agg', 'blue_agg']), ('evi', ['nir_agg', 'red_agg', 'blue_agg']),
                       ('gci', ['nir_agg', 'green_agg']), ('nbr', ['nir_agg', 'swir2_agg']), ('nbr2', ['swir1_agg', 'swir2_agg']),
                       ('ndvi', ['nir_agg', 'red_agg']), ('ndmi', ['nir_agg', 'swir1_agg']), ('savi', ['nir_agg', 'red_agg']),
@@ -1851,6 +1862,8 @@ def _registry():
         reg['local.' + fn] = dict(mod='local', fn=fn, rasters=[('a', 'data'), ('b', 'data'), ('c', 'data')], dataset=True,
                                   extra=(lambda r, v, ref=ref: ({'ref_var': 'a'} if ref else {})), variants=1,
                                   backends=['numpy'], out='own')
+    for ent in reg.values():
+        ent['backends'] = BACKENDS        # a backend a function does not implement is an ordinary, classified error
     return reg
 
 
@@ -1873,15 +1886,29 @@ def _observe(case):
     rasters = {}
     bases = {}
     kinds = ent['kinds'](case['variant']) if 'kinds' in ent else {}
-    for (p, kind) in ent['rasters']:
+    for ri, (p, kind) in enumerate(ent['rasters']):
         kind = kinds.get(p, kind)
-        rasters[p], bases[p] = _mk_raster(rng, case['dtype'], case['layout'], case['backend'], kind, name=p,
-                                          attrs_kind=case.get('attrs', 'res'))
+        dt, lo = case['dtype'], case['layout']
+        if case.get('mix') and ri > 0:
+            # the other rasters of a multi-raster call get another dtype and memory layout
+            dt = DTYPES[(DTYPES.index(dt) + 3 * ri) % len(DTYPES)]
+            lo = LAYOUTS[(LAYOUTS.index(lo) + ri) % len(LAYOUTS)]
+        rasters[p], bases[p] = _mk_raster(rng, dt, lo, case['backend'], kind, name=p,
+                                          attrs_kind=case.get('attrs', 'res'), dims_kind=case.get('dims', 'yx'))
     extra = ent['extra'](rng, case['variant'])
     extra_snap = _copy.deepcopy({k: v for k, v in extra.items() if not callable(v)})
     snaps = {p: _snap_raster(rasters[p], bases[p]) for p in rasters}
     mod = importlib.import_module('xrspatial.' + ent['mod'])
     f = getattr(mod, ent['fn'])
+    try:
+        import inspect
+        sig = set(inspect.signature(f).parameters)
+    except Exception:                 # noqa
+        sig = set()
+    if case.get('named') and 'name' in sig and 'name' not in extra:
+        extra['name'] = 'given_name'          # optional argument given instead of defaulted
+    if case.get('dims', 'yx') != 'yx' and {'x', 'y'} <= sig and 'x' not in extra and not isinstance(extra.get('x'), float):
+        extra['x'], extra['y'] = 'lon', 'lat'  # the functions that take the dimension names
     obs = dict(case=case, error=None, modified={}, extra_modified=[], shares=[], probe_changed=[], identity=[], out_kind=None)
     seq = case.get('sequence')
     try:
@@ -1992,7 +2019,7 @@ def _observe_sequence(case):
     reg = _registry()
     rng = random.Random(case['dataseed'])
     agg, base = _mk_raster(rng, case['dtype'], case['layout'], case['backend'], 'data', name='agg',
-                           attrs_kind=case.get('attrs', 'res'))
+                           attrs_kind=case.get('attrs', 'res'), dims_kind=case.get('dims', 'yx'))
     snap = _snap_raster(agg, base)
     obs = dict(case=case, steps=[])
     for (fn, variant) in case['sequence']:
@@ -2074,6 +2101,8 @@ def gen_cases(ctx, only=None, full=False):
             cases.append(dict(kind='call', fn=fn, backend=be, dtype=dt, layout=lo,
                               variant=(i + rng.randrange(ent['variants'])) % ent['variants'],
                               attrs=ATTRS_KINDS[(i + aoff + fi) % 3],
+                              named=bool((i + aoff) % 2), mix=bool((i + aoff + fi) % 3 == 1),
+                              dims='latlon' if (i + 2 * aoff + fi) % 4 == 3 else 'yx',
                               dataseed=rng.randrange(1 << 30)))
     # the property's named hard cases, in every run: a cast that is a no-op for the input's dtype (float64 through
     # focal.mean with passes=0), 3-D crosstab values with the layer dimension first on a C-contiguous buffer,
@@ -2091,6 +2120,7 @@ def gen_cases(ctx, only=None, full=False):
             seq.append((fn, rng.randrange(reg[fn]['variants'])))
         cases.append(dict(kind='sequence', fn='sequence', backend=rng.choice(BACKENDS), dtype=rng.choice(DTYPES),
                           layout=rng.choice(LAYOUTS), attrs=rng.choice(ATTRS_KINDS), sequence=seq,
+                          dims=rng.choice(['yx', 'yx', 'latlon']),
                           dataseed=rng.randrange(1 << 30)))
     return cases
 
@@ -2174,6 +2204,9 @@ def evaluate(ctx, obs, pred):
     allowed_alias = set(spec.get('alias', ()))
     ctx.count('%s/%s/%s' % (c['fn'].split('.')[-1], c['backend'], 'error' if obs['error'] else 'ok'))
     ctx.count('attrs/%s' % c.get('attrs', 'res'))
+    ctx.count('dims/%s' % c.get('dims', 'yx'))
+    ctx.count('name=/%s' % ('given' if c.get('named') else 'default'))
+    ctx.count('multi-raster dtypes/%s' % ('mixed' if c.get('mix') else 'same'))
     ctx.count('dtype/%s' % c['dtype'])
     ctx.count('layout/%s' % c['layout'])
     perlin = (fn == 'perlin.perlin' and c['backend'] == 'numpy')
@@ -2277,7 +2310,7 @@ def search(ctx):
 
 
 def replay_case(ctx, case):
-    case = {k: v for k, v in case.items() if k in ('kind', 'fn', 'backend', 'dtype', 'layout', 'variant', 'dataseed', 'sequence', 'attrs')}
+    case = {k: v for k, v in case.items() if k in ('kind', 'fn', 'backend', 'dtype', 'layout', 'variant', 'dataseed', 'sequence', 'attrs', 'named', 'mix', 'dims')}
     if 'sequence' in case and case.get('kind') == 'sequence':
         case['sequence'] = [tuple(x) for x in case['sequence']]
     ctx.case(case)
